@@ -4,8 +4,11 @@
 // startServers wires it (app.VerifBoot): requests are raw HTTP/1.1 text parsed
 // by http.ReadRequest, pull consumers use the real HTTP handler and the real
 // gRPC server (through vnet), push uses the real PushDispatcher+HTTPDeliverer
-// with an in-memory RoundTripper. The oracle (ref.go) is written from the
+// with an in-memory RoundTripper. The oracle (ref_test.go) is written from the
 // property text and shares no code with hookaido.
+//
+// The enumeration is split over shard processes (runner.RunShards): the SQLite
+// driver does not scale over goroutines of one process.
 package c07
 
 import (
@@ -14,8 +17,6 @@ import (
 	"os"
 	"runtime"
 	"sort"
-	"sync"
-	"sync/atomic"
 	"testing"
 	"time"
 
@@ -28,99 +29,168 @@ type job struct {
 	Cases   []mcase `json:"cases"`
 }
 
+type failedCase struct {
+	Key, Msg string
+	Job      job
+}
+
+// shardReply is what one shard process reports to the parent.
+type shardReply struct {
+	Counters      map[string]int64
+	Via           map[string]int64
+	Distinct      []string
+	Samples       []any
+	Fails         []failedCase
+	Infra         []string
+	NotExhaustive string
+	Jobs          int
+}
+
+const setSize = 6 // jobs generated per case batch: |backends| x |flows|
+
+// explore runs the share (i of n) of the enumeration in this process.
+func explore(r *runner.Run, i, n int, deadline time.Time) *shardReply {
+	rep := &shardReply{Counters: map[string]int64{}, Via: map[string]int64{}}
+	distinct := map[string]struct{}{}
+	failed := map[string]bool{}
+	idx := -1
+	generate(r, func(j job) bool {
+		idx++
+		if (idx/setSize)%n != i {
+			return true
+		}
+		if time.Now().After(deadline) {
+			rep.NotExhaustive = "wall budget reached before the enumeration finished"
+			return false
+		}
+		res := runBatch(0, j.Backend, j.Flow, j.Cases)
+		rep.Jobs++
+		rep.Infra = append(rep.Infra, res.infra...)
+		rep.Counters["evaluations"] += res.evals
+		rep.Counters["messages"] += int64(len(j.Cases))
+		rep.Counters["ref_accepts"] += res.accepts
+		rep.Counters["ref_rejects"] += res.rejects
+		rep.Counters["boots"] += res.boots
+		rep.Counters["sqlite_reopens"] += res.reopens
+		rep.Counters["publish_unaccepted_within_max_body"] += res.pubUnaccepted
+		rep.Counters["forward_auth_calls"] += res.fwdCalls
+		for k, v := range res.via {
+			rep.Via[k] += v
+		}
+		for k := range res.distinct {
+			distinct[k] = struct{}{}
+		}
+		if len(rep.Samples) < 2 {
+			rep.Samples = append(rep.Samples, res.samples...)
+		}
+		for _, f := range res.fails {
+			if !failed[f.Key] {
+				failed[f.Key] = true
+				rep.Fails = append(rep.Fails, failedCase{Key: f.Key, Msg: f.Msg, Job: job{Backend: j.Backend, Flow: j.Flow, Cases: []mcase{j.Cases[f.Case]}}})
+			}
+		}
+		return len(rep.Infra) == 0
+	})
+	for k := range distinct {
+		rep.Distinct = append(rep.Distinct, k)
+	}
+	sort.Strings(rep.Distinct)
+	return rep
+}
+
 func TestCheck(t *testing.T) {
 	r := runner.Start("C07", "exploration")
-	deadline := r.Deadline(85*time.Second, 11*time.Minute)
+	deadline := r.Deadline(80*time.Second, 11*time.Minute)
 
+	if _, child := runner.IsShard(); child {
+		var i, n int
+		if _, err := fmt.Sscanf(os.Getenv("VERIF_SHARD"), "%d/%d", &i, &n); err != nil || n <= 0 {
+			fmt.Fprintln(os.Stderr, "bad VERIF_SHARD")
+			os.Exit(2)
+		}
+		runner.ShardReply(explore(r, i, n, deadline))
+		return
+	}
 	if p := runner.ReplayPath(); p != "" {
 		replay(r, p)
 		r.Finish()
 		return
 	}
 
-	workers := runtime.NumCPU()
-	if workers > 16 {
-		workers = 16
+	shards := runtime.NumCPU()
+	if shards > 16 {
+		shards = 16
 	}
-	if workers < 2 {
-		workers = 2
+	outs, err := runner.RunShards("c07", shards, time.Until(deadline)+4*time.Minute)
+	if err != nil {
+		r.Infra("shards: %v", err)
 	}
-	jobs := make(chan job, 2*workers)
-	var stopped atomic.Bool
-	var wg sync.WaitGroup
-	var smu sync.Mutex
-	viaCount := map[string]int64{}
-	for w := 0; w < workers; w++ {
-		wg.Add(1)
-		go func(slot int) {
-			defer wg.Done()
-			for j := range jobs {
-				if stopped.Load() {
-					continue
-				}
-				res := runBatch(slot, j.Backend, j.Flow, j.Cases)
-				for _, m := range res.infra {
-					r.Infra("%s", m)
-				}
-				if len(res.infra) > 0 {
-					stopped.Store(true)
-				}
-				r.Add("evaluations", res.evals)
-				r.Add("messages", int64(len(j.Cases)))
-				r.Add("ref_accepts", res.accepts)
-				r.Add("ref_rejects", res.rejects)
-				r.Add("boots", res.boots)
-				r.Add("sqlite_reopens", res.reopens)
-				r.Add("publish_unaccepted_within_max_body", res.pubUnaccepted)
-				r.Add("forward_auth_calls", res.fwdCalls)
-				for k := range res.distinct {
-					r.Distinct(k)
-				}
-				for _, s := range res.samples {
-					r.Sample(s)
-				}
-				smu.Lock()
-				for k, v := range res.via {
-					viaCount[k] += v
-				}
-				smu.Unlock()
-				for _, f := range res.fails {
-					f := f
-					c := j.Cases[f.Case]
-					r.Violation(f.Key, f.Msg, job{Backend: j.Backend, Flow: j.Flow, Cases: []mcase{c}}, func() bool {
-						again := runBatch(slot, j.Backend, j.Flow, []mcase{c})
-						for _, g := range again.fails {
-							if g.Key == f.Key {
-								return true
-							}
-						}
-						return false
-					})
+	via := map[string]int64{}
+	jobs := 0
+	var fails []failedCase
+	for _, b := range outs {
+		if b == nil {
+			continue
+		}
+		var rep shardReply
+		if err := json.Unmarshal(b, &rep); err != nil {
+			r.Infra("shard reply: %v", err)
+			continue
+		}
+		for k, v := range rep.Counters {
+			r.Add(k, v)
+		}
+		for k, v := range rep.Via {
+			via[k] += v
+		}
+		for _, k := range rep.Distinct {
+			r.Distinct(k)
+		}
+		for _, s := range rep.Samples {
+			r.Sample(s)
+		}
+		for _, m := range rep.Infra {
+			r.Infra("%s", m)
+		}
+		if rep.NotExhaustive != "" {
+			r.NotExhaustive(rep.NotExhaustive)
+		}
+		jobs += rep.Jobs
+		fails = append(fails, rep.Fails...)
+	}
+	size := func(f failedCase) int { c := f.Job.Cases[0]; return len(c.Hdrs)*1000 + len(c.BodyHex)/2 + c.N*2000 }
+	sort.Slice(fails, func(a, b int) bool { // per key, the smallest failing case becomes the replay
+		if fails[a].Key != fails[b].Key {
+			return fails[a].Key < fails[b].Key
+		}
+		if size(fails[a]) != size(fails[b]) {
+			return size(fails[a]) < size(fails[b])
+		}
+		return fails[a].Msg < fails[b].Msg
+	})
+	reported := map[string]bool{}
+	for _, f := range fails {
+		f := f
+		if reported[f.Key] { // several shards can meet the same failure class
+			continue
+		}
+		reported[f.Key] = true
+		r.Violation(f.Key, f.Msg, f.Job, func() bool { // re-run exactly that case in a fresh application
+			again := runBatch(0, f.Job.Backend, f.Job.Flow, f.Job.Cases)
+			for _, g := range again.fails {
+				if g.Key == f.Key {
+					return true
 				}
 			}
-		}(w)
+			return false
+		})
 	}
 
-	njobs := 0
-	generate(r, func(j job) bool {
-		if stopped.Load() {
-			return false
-		}
-		if time.Now().After(deadline) {
-			r.NotExhaustive("wall budget reached before the enumeration finished")
-			return false
-		}
-		jobs <- j
-		njobs++
-		return true
-	})
-	close(jobs)
-	wg.Wait()
-
-	r.Set("batches", njobs)
-	r.Set("observations_by_path", viaCount)
+	r.Set("batches", jobs)
+	r.Set("shard_processes", shards)
+	r.Set("observations_by_path", via)
 	r.Set("default_max_body", defaultMaxBody)
-	r.Set("body_sweep_max_len", runner.Pick(r, 1, 2))
+	r.Set("body_sweep", runner.Pick(r, "all byte strings of length <= 1, plus the 1024 two-byte strings starting with 00|20|c2|ff, plus specials", "all 65793 byte strings of length <= 2, plus specials"))
 	r.Set("header_subset_max_size", runner.Pick(r, 2, 3))
 	r.Set("rule", "nested loops: sweep{body,header,publish-header,boundary} x case x way-in{ingress raw HTTP/1.1, admin publish payload_b64} x flow{pull http>grpc, pull grpc>http, push} x backend{memory,sqlite}; "+
 		"every accepted message is observed at admin list, first delivery, nack+redelivery, (sqlite) close+reopen then two more deliveries; one evaluation = one observation or one accept/reject decision compared with the reference; "+
